@@ -1,5 +1,7 @@
 import GV.Model.MultiAsset
 import GV.Proofs.MultiAsset
+import GV.Proofs.MultiAssetEnc
+import GV.Proofs.MultiAssetDec
 /-!
 C06 — Multi-asset values behave as a commutative group up to zeros.
 
@@ -83,6 +85,80 @@ theorem add_neg_cancel (a : MA) (ha : WF a) :
   rw [this]
   have h0 : qty [] p n = 0 := rfl
   rw [h0]; omega
+
+
+-- ------------------------------------------------------------------ encoding clauses
+
+open GV.Proofs.MultiAssetEnc GV.Proofs.MultiAssetDec in
+/-- **Encoding is deterministic (canonical key order).**  Two lists that represent the same Go map
+    — same policies, same (name ↦ amount) entries under each, in any iteration order at either
+    level — encode to the same bytes. -/
+theorem encode_perm_invariant (a b : MA) (ha : WF a) (hb : WF b) (h : SameMap a b) :
+    encodeMA a = encodeMA b :=
+  GV.Proofs.MultiAssetEnc.encode_perm_invariant a b ha hb h
+
+open GV.Proofs.MultiAssetEnc in
+/-- The entries are written in bytewise order of their encoded keys, at both levels. -/
+theorem encode_key_order (m : MA) :
+    (sortKeys m).Pairwise (fun x y => lexLE (encBytes x.1) (encBytes y.1) = true) ∧
+    ∀ e ∈ m, (sortKeys e.2).Pairwise (fun x y => lexLE (encBytes x.1) (encBytes y.1) = true) :=
+  ⟨sortKeys_pairwise m, fun e _ => sortKeys_pairwise e.2⟩
+
+open GV.Proofs.MultiAssetEnc GV.Proofs.MultiAssetDec in
+/-- **Decoding an encoding** yields a value that compares equal to the original, carries no zero
+    (or nil) quantity and no empty policy, and raises no duplicate-key flag.  `MAOK`: policy ids are
+    28 bytes and every length fits CBOR's 64-bit length fields. -/
+theorem decode_encode (a : MA) (ha : WF a) (hok : MAOK a) :
+    ∃ d, decodeMA (encodeMA a) = some d ∧ d.dup = false ∧
+      GV.Model.MultiAsset.compare d.value a = true ∧
+      (∀ e ∈ d.value, e.2 ≠ [] ∧ ∀ x ∈ e.2, val x.2 ≠ 0) := by
+  refine ⟨_, decode_encode_eq a ha hok, rfl, ?_, normalize_no_zeros _⟩
+  have hc := wf_canon ha
+  rw [compare_iff _ _ (wf_normalize hc) ha]
+  intro p n
+  show qty (normalize (canon a)) p n = qty a p n
+  rw [qty_normalize hc, qty_canon ha]
+
+open GV.Proofs.MultiAssetEnc GV.Proofs.MultiAssetDec in
+/-- Re-encoding what was decoded gives the same bytes for equal values without zeros: the
+    encoding of the decoded value does not depend on the order the original was iterated in. -/
+theorem decode_encode_same (a b : MA) (ha : WF a) (hb : WF b) (h : SameMap a b) :
+    decodeMA (encodeMA a) = decodeMA (encodeMA b) := by
+  rw [encode_perm_invariant a b ha hb h]
+
+open GV.Proofs.MultiAssetEnc GV.Proofs.MultiAssetDec in
+/-- a permutation of the policies is the same map -/
+theorem sameMap_of_perm (a b : MA) (ha : WF a) (hp : a.Perm b) : SameMap a b := by
+  intro p
+  rw [lookup_of_perm ha.1 hp p]
+  refine ⟨rfl, ?_⟩
+  intro i j h1 h2 n
+  rw [h1] at h2; cases h2; rfl
+
+open GV.Proofs.MultiAssetEnc GV.Proofs.MultiAssetDec in
+/-- Non-vacuity of `encode_perm_invariant` and `decode_encode`: a value with nil, zero and bignum
+    amounts, presented in two iteration orders, meets every hypothesis. -/
+example :
+    let p : Bytes := List.replicate 28 1
+    let q : Bytes := List.replicate 28 2
+    let a : MA := [(p, [([7], some 5), ([], none), ([8, 8], some (-18446744073709551617))]), (q, [])]
+    let b : MA := [(q, []), (p, [([7], some 5), ([], none), ([8, 8], some (-18446744073709551617))])]
+    WF a ∧ WF b ∧ SameMap a b ∧ MAOK a := by
+  intro p q a b
+  have ha : WF a := by decide
+  refine ⟨ha, by decide, sameMap_of_perm a b ha (by decide), ?_⟩
+  refine ⟨by decide, ?_⟩
+  intro e he
+  simp only [a, List.mem_cons, List.not_mem_nil, or_false] at he
+  rcases he with rfl | rfl
+  · refine ⟨by decide, by decide, ?_⟩
+    intro x hx
+    simp only [List.mem_cons, List.not_mem_nil, or_false] at hx
+    rcases hx with rfl | rfl | rfl
+    · exact ⟨by decide, by decide, by decide⟩
+    · exact ⟨by decide, trivial⟩
+    · exact ⟨by decide, by decide, by decide⟩
+  · exact ⟨by decide, by decide, by intro x hx; cases hx⟩
 
 /-- Non-vacuity: two different lists (orders, zero and nil entries) that are equal values. -/
 example : WF [([1], [([7], some 5), ([8], none)]), ([2], [])] ∧
